@@ -327,7 +327,7 @@ def run_jobs(jobs, procs=NCPU):
 class Harness:
     """one harness entry: Go function `entry` in package `pkgpath` (directory `pkgdir`), overlay files"""
     def __init__(self, entry, pkgdir, files, unwind=16, timeout_ms=60000, opts=None, pkgs=None, replay=True,
-                 replay_timeout=240, hang_labels=(), cover_replay=1, cover_budget=3):
+                 replay_timeout=240, hang_labels=(), cover_replay=1, cover_budget=3, replay_attempts=1):
         self.entry, self.pkgdir, self.files = entry, pkgdir, files
         self.pkgpath = MOD + '/' + pkgdir
         self.unwind, self.timeout_ms, self.opts = unwind, timeout_ms, opts or {}
@@ -336,6 +336,8 @@ class Harness:
         self.hang_labels = set(hang_labels)
         self.cover_replay = cover_replay
         self.cover_budget = cover_budget
+        # native map iteration order is random: an order-dependent counterexample is replayed up to this many times
+        self.replay_attempts = replay_attempts
 
     @property
     def fq(self):
@@ -445,7 +447,10 @@ def post_process(ctx, h, r):
             ob['status'] = 'violated-unreplayed'
             ctx.notes.append('SAT-WITHOUT-REPLAY %s %s %s' % (h.entry, label, json.dumps(inputs)[:400]))
             continue
-        rr = ctx.replay(h.files, h.pkgdir, h.pkgpath, h.entry, inputs, h.replay_timeout, h.opts.get('params'))
+        for attempt in range(h.replay_attempts):
+            rr = ctx.replay(h.files, h.pkgdir, h.pkgpath, h.entry, inputs, h.replay_timeout, h.opts.get('params'))
+            if reproduced(rr, label, h):
+                break
         if reproduced(rr, label, h):
             seen_labels.add(key)
             ctx.replays_ok += 1
